@@ -14,7 +14,8 @@ from symex.poly import pand, pconcat, pcontains, peq, pimplies, plen, pnone_in, 
 
 PROPERTY = "C01"
 BOUNDS = {
-    "quick": {"payload_bytes_max": 3, "chunks": 2, "boundary": "b'b'", "framing": ["CRLF", "LF", "CR"]},
+    "quick": {"payload_bytes_max": 4, "chunks": 2, "boundary": "b'b' and a 70-byte boundary", "framing": ["CRLF", "LF", "CR"],
+              "transport_padding": "1 and 12 blanks after every delimiter (thorough: 1, 9, 12, 20), with / without a preamble"},
     "thorough": {"payload_bytes_max": 4, "chunks": 3, "boundary": ["b'b'", "b'-b'", "b'bb'"], "framing": ["CRLF", "LF", "CR"]},
 }
 STUBS = ["none for the decoder kernel (dataclass constructors run natively)",
@@ -34,22 +35,23 @@ LONG_PART_HEADERS = (b'Content-Disposition: form-data; name="upload"; filename="
                      b"Content-Type: application/octet-stream", b"X-Extra: 0123456789")
 
 
-def build_body(K, boundary, payload, parts_after, bodyless, long_first=False):
+def build_body(K, boundary, payload, parts_after, bodyless, long_first=False, pad=b"", preamble=b""):
     """a multipart body with one part whose payload is `payload` (may be symbolic);
-    long_first puts a part with a long header block in front of it"""
-    head = b""
+    long_first puts a part with a long header block in front of it; `pad` is transport padding
+    (RFC 2046: linear white space after a delimiter, before its line break)"""
+    head = preamble
     if long_first:
-        head = b"--" + boundary + K + K.join(LONG_PART_HEADERS) + K + K + b"first" + K
-    head += b"--" + boundary + K + b'Content-Disposition: form-data; name="a"' + K
+        head += b"--" + boundary + pad + K + K.join(LONG_PART_HEADERS) + K + K + b"first" + K
+    head += b"--" + boundary + pad + K + b'Content-Disposition: form-data; name="a"' + K
     if bodyless:
         # a part without a body: the header block is directly followed by the delimiter
         first = head + K + b"--" + boundary
     else:
         first = pconcat(head + K, payload, K + b"--" + boundary)
     if parts_after:
-        rest = K + b'Content-Disposition: form-data; name="z"; filename="f"' + K + K + b"tail" + K + b"--" + boundary + b"--" + K
+        rest = pad + K + b'Content-Disposition: form-data; name="z"; filename="f"' + K + K + b"tail" + K + b"--" + boundary + b"--" + pad + K
     else:
-        rest = b"--" + K
+        rest = b"--" + pad + K
     return pconcat(first, rest)
 
 
@@ -116,7 +118,7 @@ def split_at(body, offsets):
     return out
 
 
-def body_decoder(I, X, framing="CRLF", boundary=b"b", n=3, bodyless=False, parts_after=False, cuts=(0,), long_first=False):
+def body_decoder(I, X, framing="CRLF", boundary=b"b", n=3, bodyless=False, parts_after=False, cuts=(0,), long_first=False, pad=0, preamble=""):
     """`cuts` are split offsets counted back from the end of the payload region"""
     if isinstance(boundary, str):
         boundary = boundary.encode("latin-1")
@@ -129,7 +131,7 @@ def body_decoder(I, X, framing="CRLF", boundary=b"b", n=3, bodyless=False, parts
             X.assume(pnone_in(payload, [13]))
         elif framing == "CR":
             X.assume(pnone_in(payload, [10]))
-    body = build_body(K, boundary, payload, parts_after, bodyless, long_first)
+    body = build_body(K, boundary, payload, parts_after, bodyless, long_first, (b" \t" * pad)[:pad], preamble.encode("latin-1"))
     total = plen(body)
     offsets = sorted(total - c for c in cuts)
     if offsets[0] < 0 or offsets[-1] > total:
@@ -248,8 +250,25 @@ def body_parser(I, X, framing="CRLF", boundary="b", n=2, kind="field", buffer_si
     return ok, obs
 
 
+def _padded_obligations(tier, seed):
+    """transport padding after every delimiter (shorter and longer than the decoder's search
+    window) and a preamble: every 2-way split"""
+    out = []
+    for framing in (["CRLF"] if tier == "quick" else ["CRLF", "LF", "CR"]):
+        K = NL[framing]
+        for pad, preamble, n in ([(1, "", 1), (12, "", 1), (12, "pre\r\n", 0)] if tier == "quick" else
+                                 [(p, pre, n) for p in (1, 9, 12, 20) for pre in ("", "pre" + K.decode()) for n in (0, 2)]):
+            total = len(build_body(K, b"b", b"x" * n, True, False, False, (b" \t" * pad)[:pad], preamble.encode()))
+            for c in range(0, total + 1):
+                out.append({"name": f"decoder-padded[{framing},pad={pad},preamble={preamble!r},n={n},cuts=({c},)]", "body": "body_decoder",
+                            "params": {"framing": framing, "boundary": "b", "n": n, "bodyless": False, "parts_after": True, "cuts": [c],
+                                       "pad": pad, "preamble": preamble},
+                            "opts": {"budget_s": 600}})
+    return out
+
+
 def obligations(tier, seed):
-    out = _decoder_obligations(tier, seed) + _long_first_obligations(tier, seed) + _long_boundary_obligations(tier, seed)
+    out = _decoder_obligations(tier, seed) + _long_first_obligations(tier, seed) + _long_boundary_obligations(tier, seed) + _padded_obligations(tier, seed)
     for framing, K in NL.items():
         for kind in ("field", "file"):
             if kind == "file":
